@@ -2,27 +2,28 @@
 (* Closed system for exhaustive checking of Advertising.tla: the acceptor composed with an environment *)
 (* that offers every application call / radio callback over small finite parameter sets, and with a    *)
 (* radio that reports every transmission the acceptor allows.  Profile "c24": manual and automatic      *)
-(* start, all channel maps and map changes, intervals {20 ms, 100 ms, 10.24 s, (19 ms: ignored)},       *)
-(* counts {1, 2, 4}, connect / disconnect.  Profile "c25": four advertising types (and directed only),  *)
+(* start, all channel maps and map changes, intervals {20 ms, 100 ms, 10.24 s}, counts {1, 2} ("c24full": *)
+(* + 19 ms (ignored), count 4), connect / disconnect.  Profile "c25": four advertising types (and directed only),  *)
 (* own address random / public, white list of 2 with 3 candidate addresses, both filters, a grid of     *)
 (* received PDUs (a well-formed CONNECT_IND per initiator and each single defect; profile "c25full":    *)
-(* SCAN_REQ / CONNECT_IND x length field x size x InitA x AdvA x RxAdd).                                *)
+(* CONNECT_IND x length field x size x InitA x AdvA x RxAdd, SCAN_REQ x ScanA x AdvA x RxAdd).           *)
 EXTENDS Advertising, TLC
 
-CONSTANT Profile
+CONSTANT Profile          \* "c24" | "c24full" | "c25" | "c25full"
+Is24 == Profile \in {"c24", "c24full"}
 
 OwnA    == <<71, 17, 8, 21, 15, 192>>
 A(k)    == << <<(k \div 2) + 1, 16, 32, 48, 64, 192>>, k % 2 = 1 >>      \* address id k as in the harness
 Zeros(n)== [i \in 1..n |-> 0]
 
 McCfgs ==
-    IF Profile = "c24"
+    IF Is24
     THEN {[auto |-> a, iv |-> 100000, own |-> OwnA, ownr |-> TRUE, wln |-> 0, types |-> <<0>>, varmap |-> TRUE, variv |-> TRUE] : a \in BOOLEAN}
     ELSE {[auto |-> TRUE, iv |-> 100000, own |-> OwnA, ownr |-> r, wln |-> 2, types |-> ty, varmap |-> FALSE, variv |-> FALSE] :
               r \in BOOLEAN, ty \in {<<0, 1, 6, 2>>, <<1>>}}
-McIvs    == IF Profile = "c24" THEN {20000, 10240000, 19000} ELSE {}
-McCounts == IF Profile = "c24" THEN {1, 2, 4} ELSE {}
-McAddrs  == IF Profile = "c24" THEN {} ELSE {A(0), A(1), A(2)}
+McIvs    == IF Profile = "c24" THEN {20000, 10240000} ELSE IF Is24 THEN {20000, 10240000, 19000} ELSE {}
+McCounts == IF Profile = "c24" THEN {1, 2} ELSE IF Is24 THEN {1, 2, 4} ELSE {}
+McAddrs  == IF Is24 THEN {} ELSE {A(0), A(1), A(2)}
 
 \* a request PDU: type, length field, n payload bytes, initiator / scanner address, advertiser address bytes, RxAdd
 MkReq(t, lenf, n, ia, aa, rx) ==
@@ -30,7 +31,7 @@ MkReq(t, lenf, n, ia, aa, rx) ==
 
 Other == A(4)[1]
 McRx ==
-    IF Profile = "c24"
+    IF Is24
     THEN {[p |-> MkReq(CONNECT_IND, 34, 34, A(1), cfg.own, cfg.ownr), size |-> 36],
           [p |-> MkReq(SCAN_REQ, 12, 12, A(1), cfg.own, cfg.ownr), size |-> 14]}
     ELSE IF Profile = "c25"      \* a well-formed request per initiator + every single defect
@@ -40,8 +41,9 @@ McRx ==
           [p |-> MkReq(CONNECT_IND, 34, 12, A(1), cfg.own, cfg.ownr), size |-> 14],
           [p |-> MkReq(CONNECT_IND, 34, 34, A(1), Other, cfg.ownr), size |-> 36],
           [p |-> MkReq(CONNECT_IND, 34, 34, A(1), cfg.own, ~cfg.ownr), size |-> 36]}
-    ELSE {[p |-> MkReq(t, lf, n, ia, aa, rx), size |-> 2 + n] :
-              t \in {SCAN_REQ, CONNECT_IND}, lf \in {12, 34}, n \in {12, 34}, ia \in McAddrs, aa \in {cfg.own, Other}, rx \in BOOLEAN}
+    ELSE {[p |-> MkReq(CONNECT_IND, lf, n, ia, aa, rx), size |-> 2 + n] :
+              lf \in {12, 34}, n \in {12, 34}, ia \in McAddrs, aa \in {cfg.own, Other}, rx \in BOOLEAN} \cup
+         {[p |-> MkReq(SCAN_REQ, 12, 12, ia, aa, rx), size |-> 14] : ia \in McAddrs, aa \in {cfg.own, Other}, rx \in BOOLEAN}
 
 \* the PDUs a correct advertiser hands to the radio
 MkAdv(t) ==
